@@ -99,7 +99,7 @@ async def probe(port, timeout=5.0):
 async def main(args):
     from . import lib as _lib
     _lib.UNIQUE_SRC = True   # records are joined with connections by source port
-    out = Out("C19", "c19", "upstream kind {origin via direct, proxy via http, via socks5, via quic, load balancer over two, a non-redproxy QUIC server} x fault {SIGKILL+restart, SIGTERM+restart, SIGSTOP..SIGCONT, SIGSTOP+SIGKILL+restart, polite QUIC close (CONNECTION_CLOSE)+restart} x phase {idle, mid-transfer (tunnel open across the outage), during connect} x outage length, repeated outages, with a continuous healthy probe stream on another upstream. distinct = distinct (kind, fault, phase, outage length, verdict part)")
+    out = Out("C19", "c19", "upstream kind {origin via direct, proxy via http, via socks5, via quic, load balancer over two, a non-redproxy QUIC server} x fault {SIGKILL+restart, SIGTERM+restart, SIGSTOP..SIGCONT, SIGSTOP+SIGKILL+restart, polite QUIC close (CONNECTION_CLOSE)+restart} x phase {idle, mid-transfer (tunnel open across the outage), during connect, requests arriving throughout an outage that outlasts every connect timeout} x outage length, repeated outages, with a continuous healthy probe stream on another upstream. distinct = distinct (kind, fault, phase, outage length, verdict part)")
     rng = random.Random(args.seed)
     wd = workdir("c19")
     O = await TcpOrigin(echo_handler, host="127.0.0.1").start()
@@ -115,6 +115,11 @@ async def main(args):
             combos.append((kind, rng.choice(["term-restart", "stop-kill-restart"]), "idle", 1.0, 2))
             combos.append((kind, "stop-cont", rng.choice(["idle", "during-connect"]), 1.0, 1))
     combos.append(("direct", "reset-restart", "mid-transfer", 0.5, 1))
+    combos.append(("q", "kill-restart", "requests-during-outage", 33.0, 1))
+    combos.append(("qx", "kill-restart", "requests-during-outage", 33.0, 1))
+    if args.thorough:
+        for kind in ("h", "s5", "lb", "direct"):
+            combos.append((kind, "kill-restart", "requests-during-outage", 8.0, 1))
     for fault in ("close-restart", "kill-restart"):
         for phase in (("idle", "mid-transfer", "during-connect") if args.thorough else ("idle", "mid-transfer")):
             combos.append(("qx", fault, phase, rng.choice([0.3, 1.0, 3.0]), 2 if phase == "idle" else 1))
@@ -273,8 +278,24 @@ async def main(args):
                     await asyncio.sleep(0.02)
                     return await probe(s.port, T_MAX[s.kind] + s.outage + 5)
                 pend = asyncio.ensure_future(delayed())
+            bg = None
+            if s.phase == "requests-during-outage":
+                # requests keep arriving while the upstream is away, for longer than any connect / handshake timeout: every one of
+                # them fails (fine) - none of those failures may outlive the outage
+                async def outage_probes():
+                    pending = []
+                    try:
+                        while True:
+                            pending.append(asyncio.ensure_future(probe(s.port, 45.0)))
+                            await asyncio.sleep(3.0)
+                    except asyncio.CancelledError:
+                        for p in pending:
+                            p.cancel()
+                bg = asyncio.ensure_future(outage_probes())
             t_fault = now()
             hard = await inject(s)
+            if bg is not None:
+                bg.cancel()
             ok = await upstream_reachable(s)
             if not ok:
                 out.inconclusive += 1
